@@ -81,7 +81,7 @@ theorem C11_public_guarded :
 /-- regenerated from DispatchPrivate: the basic-auth test refuses (401, return) before anything
 else runs, the route table is only reachable after it, and nobody else calls that table -/
 theorem C11_private_guarded :
-    Gen.Routes.privateAuthCond = "!ok || username != \"robustirc\" || password != api.networkPassword" ∧
+    Gen.Routes.privateAuthCond = "!param2.BasicAuth()[2] || \"robustirc\" != param2.BasicAuth()[0] || param2.BasicAuth()[1] != recv.networkPassword" ∧
     Gen.Routes.privateAuthRefusal = "return" ∧
     Gen.Routes.privateDispatchPlacement = ["after-auth"] ∧
     Gen.Routes.withoutAuthCallers = ["internal/api:HTTP.DispatchPrivate"] := by
@@ -145,6 +145,43 @@ theorem C11_served_dispatch (path : String) (h : isPfx "/" path = true) :
   have : (Gen.Routes.servedRoutes.map fun r => (r.1, r.2.1, "main")) =
       [("/", "api.DispatchPrivate", "main"), ("/robustirc/v1/", "api.DispatchPublic", "main")] := by decide
   rw [this]; exact C11_mux_dispatch path h
+
+/-- what a request meets first, as far as credentials are concerned -/
+inductive Gate where
+  | sessionSecret     -- `DispatchPublic`: the session check of `C11_public_guarded` (creation excepted)
+  | unauthorized      -- `DispatchPrivate` without the network password: 401, nothing else runs
+  | privateTable      -- `DispatchPrivate` with the network password: the table of private routes
+  deriving DecidableEq, Repr
+
+/-- the listening server on a request: the mux over the regenerated routes, then `DispatchPrivate`'s
+basic-auth test (`C11_private_guarded`: the test comes first and refuses with 401) -/
+def gate (path : String) (passwordOk : Bool) : Option Gate :=
+  match muxPick (Gen.Routes.servedRoutes.map fun r => (r.1, r.2.1, "main")) path with
+  | some "api.DispatchPublic" => some .sessionSecret
+  | some "api.DispatchPrivate" => some (if passwordOk then .privateTable else .unauthorized)
+  | _ => none
+
+/-- every path that is not below `/robustirc/v1/` answers 401 unless basic auth carries the network
+password — whatever the path is (status, irclog, config, join/part/quit/kill, snapshot, raft transport,
+`/debug/…`, anything else) -/
+theorem C11_outside_v1_needs_password (path : String) (h : isPfx "/" path = true)
+    (hv : isPfx "/robustirc/v1/" path = false) (passwordOk : Bool) :
+    gate path passwordOk = some (if passwordOk then .privateTable else .unauthorized) := by
+  unfold gate
+  rw [C11_served_dispatch path h, hv]
+  simp
+
+/-- and every path below it is subject to the session check -/
+theorem C11_v1_needs_session (path : String) (h : isPfx "/" path = true)
+    (hv : isPfx "/robustirc/v1/" path = true) (passwordOk : Bool) :
+    gate path passwordOk = some .sessionSecret := by
+  unfold gate
+  rw [C11_served_dispatch path h, hv]
+  simp
+
+example : gate "/debug/pprof/cmdline" false = some .unauthorized := by decide
+example : gate "/status" true = some .privateTable := by decide
+example : gate "/robustirc/v1/0x5/message" false = some .sessionSecret := by decide
 
 /-- the mux model on concrete paths, with the routes of the pinned tree's `DefaultServeMux`:
 the debug handlers won over the catch-all dispatcher -/
